@@ -1,12 +1,16 @@
 /-
-  Proofs/C15.lean — helper lemmas for Props/C15.lean.
+  Proofs/C15.lean — helper lemmas for Props/C15.lean: arithmetic of the back-off schedule, the
+  wait-status macros, and ONE induction principle (`loop_rule`) for the fuelled polling loops of
+  `wait_pid`, from which every per-call theorem is obtained by choosing an invariant.
 -/
 import Mathlib.Tactic.Linarith
 import Mathlib.Tactic.NormNum
+import Mathlib.Tactic.Ring
 import Mathlib.Algebra.Order.Field.Rat
 import PsutilModel.Model.C15
 import PsutilModel.Spec.C15
 namespace Psutil.C15
+open Spec
 
 /-- the configuration the property statement speaks about: 0.1 ms, doubling, 40 ms cap,
     deadline checked (with `>=`) before sleeping, negative timeouts rejected -/
@@ -20,5 +24,267 @@ structure Cfg.Good (c : Cfg) : Prop where
   ge : c.deadlineGe = true
   validate : c.validateNonNeg = true
   slice : c.sliceN = 1
+
+theorem Cfg.Good.i0_eq {c : Cfg} (hg : c.Good) : c.i0 = Spec.i0 := by
+  simp [Cfg.i0, Spec.i0, hg.i0n, hg.i0d]
+
+theorem Cfg.Good.cap_eq {c : Cfg} (hg : c.Good) : c.cap = Spec.cap := by
+  simp [Cfg.cap, Spec.cap, hg.capn, hg.capd]
+
+theorem Cfg.Good.factor_eq {c : Cfg} (hg : c.Good) : (c.factor : Rat) = 2 := by
+  simp [hg.factor]
+
+theorem cap_pos : (0 : Rat) < Spec.cap := by norm_num [Spec.cap]
+theorem i0_pos : (0 : Rat) < Spec.i0 := by norm_num [Spec.i0]
+theorem i0_le_cap : Spec.i0 ≤ Spec.cap := by norm_num [Spec.i0, Spec.cap]
+
+/-! ### `rmin` / `rmax` -/
+
+theorem rmin_le_left (a b : Rat) : rmin a b ≤ a := by
+  unfold rmin; split <;> linarith
+theorem rmin_le_right (a b : Rat) : rmin a b ≤ b := by
+  unfold rmin; split <;> linarith
+theorem le_rmin {a b x : Rat} (ha : x ≤ a) (hb : x ≤ b) : x ≤ rmin a b := by
+  unfold rmin; split <;> assumption
+theorem lt_rmin {a b x : Rat} (ha : x < a) (hb : x < b) : x < rmin a b := by
+  unfold rmin; split <;> assumption
+theorem le_rmax_left (a b : Rat) : a ≤ rmax a b := by
+  unfold rmax; split <;> linarith
+theorem le_rmax_right (a b : Rat) : b ≤ rmax a b := by
+  unfold rmax; split <;> linarith
+
+/-! ### the schedule `iv n = min (0.0001 · 2ⁿ) 0.04` -/
+
+theorem pow2_pos (n : Nat) : (0 : Rat) < pow2 n := by
+  induction n with
+  | zero => norm_num [pow2]
+  | succ n ih => simp only [pow2]; linarith
+
+theorem iv_zero : iv 0 = Spec.i0 := by
+  norm_num [iv, pow2, rmin, Spec.i0, Spec.cap]
+
+/-- doubling then capping one schedule entry gives the next one -/
+theorem iv_succ (n : Nat) : rmin (iv n * 2) Spec.cap = iv (n + 1) := by
+  have hp := pow2_pos n
+  have hc := cap_pos
+  have hi := i0_pos
+  unfold iv
+  simp only [pow2]
+  by_cases h : Spec.i0 * pow2 n ≤ Spec.cap
+  · have e : rmin (Spec.i0 * pow2 n) Spec.cap = Spec.i0 * pow2 n := by simp [rmin, h]
+    rw [e]; congr 1; ring
+  · have e : rmin (Spec.i0 * pow2 n) Spec.cap = Spec.cap := by simp [rmin, h]
+    rw [e]
+    have h' : Spec.cap < Spec.i0 * pow2 n := lt_of_not_ge h
+    have e1 : rmin (Spec.cap * 2) Spec.cap = Spec.cap := by
+      unfold rmin; split
+      · linarith
+      · rfl
+    have e2 : rmin (Spec.i0 * (pow2 n * 2)) Spec.cap = Spec.cap := by
+      unfold rmin; split
+      · nlinarith
+      · rfl
+    rw [e1, e2]
+
+theorem iv_pos (n : Nat) : 0 < iv n := by
+  unfold iv
+  exact lt_rmin (mul_pos i0_pos (pow2_pos n)) cap_pos
+
+theorem iv_le_cap (n : Nat) : iv n ≤ Spec.cap := rmin_le_right _ _
+
+theorem i0_le_iv (n : Nat) : Spec.i0 ≤ iv n := by
+  unfold iv
+  apply le_rmin _ i0_le_cap
+  have : (1 : Rat) ≤ pow2 n := by
+    induction n with
+    | zero => norm_num [pow2]
+    | succ n ih => simp only [pow2]; linarith
+  have hi := i0_pos
+  nlinarith
+
+/-! ### wait status words -/
+
+/-- every valid cause is in the finite table the Spec searches, and conversely -/
+theorem mem_allCauses {cause : Cause} : cause ∈ allCauses ↔ cause.Valid := by
+  unfold allCauses
+  simp only [List.mem_append, List.mem_map, List.mem_range, List.mem_flatMap, List.mem_cons,
+    List.not_mem_nil, or_false]
+  cases cause with
+  | exited c =>
+    simp only [Cause.Valid, Cause.exited.injEq, reduceCtorEq, and_false, exists_const,
+      or_false, exists_eq_right]
+    omega
+  | signaled s core =>
+    simp only [Cause.Valid, reduceCtorEq, and_false, exists_const, Cause.signaled.injEq, false_or]
+    constructor
+    · rintro ⟨i, hi, h | h⟩ <;> omega
+    · intro h
+      refine ⟨s - 1, by omega, ?_⟩
+      cases core
+      · left; exact ⟨by omega, rfl⟩
+      · right; exact ⟨by omega, rfl⟩
+
+/-- the decoding chain of `wait_pid` inverts the kernel's encoding: exit code c ↦ c, signal s ↦ −s -/
+theorem decode_status {cause : Cause} (hv : cause.Valid) : decode cause.status = .code cause.value := by
+  cases cause with
+  | exited c =>
+    simp only [Cause.Valid] at hv
+    have h1 : wifexited (c * 256) = true := by simp [wifexited, wtermsig]; omega
+    have h2 : wexitstatus (c * 256) = c := by simp [wexitstatus]; omega
+    simp [decode, Cause.status, Cause.value, h1, h2]
+  | signaled s core =>
+    simp only [Cause.Valid] at hv
+    have hs : wtermsig (s + if core = true then 128 else 0) = s := by
+      cases core <;> simp [wtermsig] <;> omega
+    have h1 : wifexited (s + if core = true then 128 else 0) = false := by
+      simp [wifexited, hs]; omega
+    have h2 : wifsignaled (s + if core = true then 128 else 0) = true := by
+      simp only [wifsignaled, hs, toSignedChar, decide_eq_true_eq]
+      split <;> omega
+    simp [decode, Cause.status, Cause.value, h1, h2, hs]
+
+/-- `decode` yields an exit status or ValueError, nothing else -/
+theorem decode_cases (st : Nat) : (∃ c, decode st = .code c) ∨ decode st = .valueError := by
+  unfold decode
+  split
+  · exact Or.inl ⟨_, rfl⟩
+  · split
+    · exact Or.inl ⟨_, rfl⟩
+    · exact Or.inr rfl
+
+/-! ### `sleep()` under the good configuration -/
+
+theorem advance_now {c : Cfg} (s : St) : (s.advance c).now = s.now + s.interval := rfl
+theorem advance_sleeps {c : Cfg} (s : St) : (s.advance c).sleeps = s.sleeps ++ [s.interval] := rfl
+theorem advance_nWait {c : Cfg} (s : St) : (s.advance c).nWait = s.nWait := rfl
+
+section
+variable {c : Cfg} (hg : c.Good)
+include hg
+
+theorem advance_interval (s : St) : (s.advance c).interval = rmin (s.interval * 2) Spec.cap := by
+  simp [St.advance, hg.factor_eq, hg.cap_eq]
+
+/-- either the deadline has passed (raise, state untouched) or it has not (sleep, back off) -/
+theorem sleepStep_cases (pid : Nat) (timeout : Option Rat) (stopAt : Rat) (s : St) :
+    (∃ τ, timeout = some τ ∧ stopAt ≤ s.now ∧
+        sleepStep c pid timeout stopAt s = (some (.timeout τ pid), s)) ∨
+    ((∀ τ, timeout = some τ → s.now < stopAt) ∧
+        sleepStep c pid timeout stopAt s = (none, s.advance c)) := by
+  cases timeout with
+  | none => right; exact ⟨by simp, rfl⟩
+  | some τ =>
+    by_cases h : stopAt ≤ s.now
+    · left; exact ⟨τ, rfl, h, by simp [sleepStep, hg.check, pastDeadline, hg.ge, h]⟩
+    · right
+      exact ⟨fun _ _ => lt_of_not_ge h, by simp [sleepStep, hg.check, pastDeadline, hg.ge, h]⟩
+
+end
+
+/-! ### the induction principle for `waitLoop` / `pollNonChild` -/
+
+/-- why `sleep()` is being called, seen from the state `s` it is called in -/
+inductive Why (env : Env) (timeout : Option Rat) (s : St) : Prop
+  /-- the waitpid call just made was interrupted -/
+  | eintr (h1 : 1 ≤ s.nWait) (h2 : env.eintr (s.nWait - 1) = true)
+  /-- WNOHANG waitpid on a child just said "still running" -/
+  | aliveChild (st : Nat) (hk : env.kind = .child st) (ht : timeout.isSome = true)
+      (ha : env.ended s.now = false) (h1 : 1 ≤ s.nWait) (h2 : env.eintr (s.nWait - 1) = false)
+  /-- `pid_exists` on a non-child just said True -/
+  | existsNonChild (hk : ∀ st, env.kind ≠ .child st) (he : env.pidExists s.now = true)
+
+section
+variable {c : Cfg} (hg : c.Good) (env : Env) (pid : Nat) (timeout : Option Rat) (stopAt : Rat)
+variable (P : St → Prop) (Q : Outcome → St → Prop)
+include hg
+
+theorem pollNonChild_rule
+    (hk : ∀ st, env.kind ≠ .child st)
+    (hraise : ∀ s τ, P s → Why env timeout s → timeout = some τ → stopAt ≤ s.now → Q (.timeout τ pid) s)
+    (hcont : ∀ s, P s → Why env timeout s → (∀ τ, timeout = some τ → s.now < stopAt) → P (s.advance c))
+    (hnone : ∀ s, P s → env.pidExists s.now = false → Q .none s)
+    (hfuel : ∀ s, P s → Q .outOfFuel s) :
+    ∀ fuel s, P s → Q (pollNonChild c env pid timeout stopAt fuel s).1
+                      (pollNonChild c env pid timeout stopAt fuel s).2 := by
+  intro fuel
+  induction fuel with
+  | zero => intro s hp; exact hfuel s hp
+  | succ n ih =>
+    intro s hp
+    unfold pollNonChild
+    by_cases he : env.pidExists s.now = true
+    · simp only [he, if_true]
+      have hw : Why env timeout s := .existsNonChild hk he
+      rcases sleepStep_cases hg pid timeout stopAt s with ⟨τ, ht, hd, e⟩ | ⟨hlt, e⟩
+      · rw [e]; exact hraise s τ hp hw ht hd
+      · rw [e]; exact ih _ (hcont s hp hw hlt)
+    · have he' : env.pidExists s.now = false := by simpa using he
+      simp only [he', Bool.false_eq_true, if_false]
+      exact hnone s hp he'
+
+theorem loop_rule
+    (hbump : ∀ s, P s → P { s with nWait := s.nWait + 1 })
+    (hraise : ∀ s τ, P s → Why env timeout s → timeout = some τ → stopAt ≤ s.now → Q (.timeout τ pid) s)
+    (hcont : ∀ s, P s → Why env timeout s → (∀ τ, timeout = some τ → s.now < stopAt) → P (s.advance c))
+    (hcode : ∀ s st, P s → env.kind = .child st → timeout.isSome = true → env.ended s.now = true →
+      1 ≤ s.nWait → env.eintr (s.nWait - 1) = false → Q (decode st) s)
+    (hblock : ∀ s st e, P s → env.kind = .child st → timeout = none → env.exitAt = some e →
+      Q (decode st) { s with now := rmax s.now e })
+    (hhang : ∀ s st, P s → env.kind = .child st → timeout = none → env.exitAt = none → Q .hang s)
+    (hnone : ∀ s, P s → (∀ st, env.kind ≠ .child st) → env.pidExists s.now = false → Q .none s)
+    (hfuel : ∀ s, P s → Q .outOfFuel s) :
+    ∀ fuel s, P s → Q (waitLoop c env pid timeout stopAt fuel s).1
+                      (waitLoop c env pid timeout stopAt fuel s).2 := by
+  intro fuel
+  induction fuel with
+  | zero => intro s hp; exact hfuel s hp
+  | succ n ih =>
+    intro s hp
+    have hp1 := hbump s hp
+    unfold waitLoop
+    by_cases hi : env.eintr s.nWait = true
+    · simp only [hi, if_true]
+      have hw : Why env timeout { s with nWait := s.nWait + 1 } :=
+        .eintr (by simp) (by simpa using hi)
+      rcases sleepStep_cases hg pid timeout stopAt { s with nWait := s.nWait + 1 }
+        with ⟨τ, ht, hd, e⟩ | ⟨hlt, e⟩
+      · rw [e]; exact hraise _ τ hp1 hw ht hd
+      · rw [e]; exact ih _ (hcont _ hp1 hw hlt)
+    · have hi' : env.eintr s.nWait = false := by simpa using hi
+      simp only [hi', Bool.false_eq_true, if_false]
+      cases hk : env.kind with
+      | child st =>
+        simp only
+        cases ht : timeout with
+        | some τ =>
+          simp only
+          by_cases he : env.ended s.now = true
+          · simp only [he, if_true]
+            exact hcode _ st hp1 hk (by simp [ht]) he (by simp) (by simpa using hi')
+          · have he' : env.ended s.now = false := by simpa using he
+            simp only [he', Bool.false_eq_true, if_false]
+            have hw : Why env timeout { s with nWait := s.nWait + 1 } :=
+              .aliveChild st hk (by simp [ht]) he' (by simp) (by simpa using hi')
+            rcases sleepStep_cases hg pid timeout stopAt { s with nWait := s.nWait + 1 }
+              with ⟨τ', ht', hd, e⟩ | ⟨hlt, e⟩
+            · rw [ht] at e; rw [e]; exact hraise _ τ' hp1 hw ht' hd
+            · rw [ht] at e; rw [e]; rw [← ht]; exact ih _ (hcont _ hp1 hw hlt)
+        | none =>
+          simp only
+          cases hx : env.exitAt with
+          | some e => simp only; exact hblock _ st e hp1 hk ht hx
+          | none => simp only; exact hhang _ st hp1 hk ht hx
+      | nonChild =>
+        simp only
+        have hk' : ∀ st, env.kind ≠ .child st := by intro st h; rw [hk] at h; cases h
+        exact pollNonChild_rule hg env pid timeout stopAt P Q hk' hraise hcont
+          (fun s hp he => hnone s hp hk' he) hfuel (n + 1) _ hp1
+      | neverExisted =>
+        simp only
+        have hk' : ∀ st, env.kind ≠ .child st := by intro st h; rw [hk] at h; cases h
+        exact pollNonChild_rule hg env pid timeout stopAt P Q hk' hraise hcont
+          (fun s hp he => hnone s hp hk' he) hfuel (n + 1) _ hp1
+
+end
 
 end Psutil.C15
